@@ -27,10 +27,10 @@ type c15case struct {
 
 func c15cases(env *core.Env) []c15case {
 	var cs []c15case
-	for i := 0; i < env.Pick(40, 600); i++ {
+	for i := 0; i < env.Pick(60, 800); i++ {
 		cs = append(cs, c15case{"free", i})
 	}
-	for i := 0; i < env.Pick(60, 1500); i++ {
+	for i := 0; i < env.Pick(150, 2500); i++ {
 		cs = append(cs, c15case{"porcupine", i})
 	}
 	for i := 0; i < c15schedCount(env); i++ {
